@@ -194,6 +194,21 @@ fn dumps<S: rustic_core::IndexedFull>(repo: &rustic_core::Repository<S>, l: &Lis
     m
 }
 
+/// the (is_tree, id) pairs listed by the index files of a repository (read from the backend, not from memory)
+fn index_set<S: rustic_core::Open>(repo: &rustic_core::Repository<S>) -> Result<BTreeSet<(bool, Id)>> {
+    let mut r = BTreeSet::new();
+    for f in repo.stream_files::<IndexFile>()? {
+        let (_, f) = f?;
+        for p in f.packs {
+            let t = p.blob_type() == BlobType::Tree;
+            for b in &p.blobs {
+                let _ = r.insert((t, Id::from(*b.id)));
+            }
+        }
+    }
+    Ok(r)
+}
+
 fn strip_sub(n: &Node) -> Node {
     let mut m = n.clone();
     m.subtree = None;
@@ -322,11 +337,41 @@ fn mode_c(seed: u64, variant: u64) -> Result<String> {
             }
         }
     }
-    // copy overlapping sets: {s1,s2} then {s2,s3}; the destination index is reloaded in between
+    // copy overlapping sets: {s1,s2} then {s2,s3}; the destination index is reloaded in between.
+    // Model of copy.rs (`needed`): the blobs a run adds to the destination index are exactly
+    // reachable(snapshots) minus the destination's TYPED index before the run.
+    let reach = |idx: &[usize]| -> BTreeSet<(bool, Id)> {
+        let mut r = BTreeSet::new();
+        for &i in idx {
+            let _ = r.insert((true, Id::from(*snaps[i].tree)));
+            for (_, n) in &lists[i] {
+                for d in n.content.iter().flatten() {
+                    let _ = r.insert((false, Id::from(**d)));
+                }
+                if let (true, Some(t)) = (n.is_dir(), &n.subtree) {
+                    let _ = r.insert((true, Id::from(**t)));
+                }
+            }
+        }
+        r
+    };
+    let mut needed_ok = true;
+    let mut needed_total = 0;
+    let ix0 = index_set(&dsti)?;
     let dsti = dsti.drop_index().to_indexed_ids()?;
     src.copy(&dsti, [&s1, &s2])?;
+    let ix1 = index_set(&dsti)?;
     let dsti = dsti.drop_index().to_indexed_ids()?;
     src.copy(&dsti, [&s2, &s3])?;
+    let ix2 = index_set(&dsti)?;
+    for (before, after, which) in [(&ix0, &ix1, vec![0usize, 1]), (&ix1, &ix2, vec![1usize, 2])] {
+        let expected: BTreeSet<(bool, Id)> = reach(&which).difference(before).copied().collect();
+        let added: BTreeSet<(bool, Id)> = after.difference(before).copied().collect();
+        needed_total += expected.len();
+        if expected != added {
+            needed_ok = false;
+        }
+    }
     let dst = dsti.drop_index();
     let check = check_clean(&dst)?;
     let dst = dst.to_indexed()?;
@@ -380,11 +425,14 @@ fn mode_c(seed: u64, variant: u64) -> Result<String> {
             }
         }
     }
-    let ok = check && ls_equal && dump_equal && found && restore_equal;
+    if !needed_ok && detail.is_empty() {
+        detail = "blobs_added_to_the_destination_index_are_not_exactly_reachable_minus_present".into();
+    }
+    let ok = check && ls_equal && dump_equal && found && restore_equal && needed_ok;
     Ok(format!(
-        "{} check={} found={} ls_equal={} dump_equal={} restore_equal={} copies={} present_before={} coll={} coll_tree={} prepop={} files={} detail={}",
+        "{} check={} found={} ls_equal={} dump_equal={} restore_equal={} needed_ok={} needed={needed_total} copies={} present_before={} coll={} coll_tree={} prepop={} files={} detail={}",
         if ok { "ok" } else { "fail what=copy" },
-        u8::from(check), u8::from(found), u8::from(ls_equal), u8::from(dump_equal), u8::from(restore_equal), copies, present,
+        u8::from(check), u8::from(found), u8::from(ls_equal), u8::from(dump_equal), u8::from(restore_equal), u8::from(needed_ok), copies, present,
         u8::from(coll), coll_tree, u8::from(prepop), lists.iter().map(Vec::len).sum::<usize>(), if detail.is_empty() { "-".into() } else { detail }
     ))
 }
